@@ -511,7 +511,87 @@ def family_core(budget, opts, limit=None, seed=0):
 SEQ_NAMES = {"two_acts", "catch_act", "catch_step_two", "catch_two_irq", "catch_act_two_irq",
              "catch_all_empty", "cancel_chain", "no_uses", "bad_pack_caught", "else_empty"}
 
+def enrich(obj, path="n"):
+    """every optional field populated, unicode text, numbers and nested values (C20 round trip)"""
+    if isinstance(obj, dict) and "id" in obj:
+        d = dict(obj)
+        d["_rich"] = {"name": "名前 " + path + " é✓", "tag": "tag-" + path, "desc": "ß∂ƒ " + path,
+                      "inputs": {"x": 1, "f": 1.5, "u": "ü", "arr": [1, "two", None], "obj": {"k": True}},
+                      "outputs": {"y": None, "z": "{{ x }}"}}
+        for k, v in obj.items():
+            if isinstance(v, list):
+                d[k] = [enrich(x, path + "." + k[0] + str(i)) for i, x in enumerate(v)]
+        return d
+    if isinstance(obj, dict):
+        return {k: ([enrich(x, path + "." + k[0] + str(i)) for i, x in enumerate(v)] if isinstance(v, list) else v)
+                for k, v in obj.items()}
+    return obj
+
+
+def rich_line(name, w, on=()):
+    """like line(), but the engine model carries every optional field"""
+    ln = line(name, w)
+    m = json.loads(ln["model"])
+
+    def deco(node, spec):
+        r = spec.get("_rich")
+        if r and isinstance(node, dict):
+            for k in ("name", "tag", "desc", "inputs", "outputs"):
+                node[k] = r[k]
+            if "uses" in node:
+                node["params"] = {"p": [1, 2.5, "π"], "q": {"r": None}}
+                node["options"] = {"o": "ö"}
+                node["setup"] = [{"id": "su_" + node["id"], "uses": "acts.core.msg", "key": "k", "on": "created"}]
+        if isinstance(node, dict):
+            for k, v in node.items():
+                sk = {"timeout": "timeouts", "if": None}.get(k, k)
+                if isinstance(v, list) and sk in spec and isinstance(spec[sk], list):
+                    for a, b in zip(v, spec[sk]):
+                        if isinstance(a, dict) and isinstance(b, dict):
+                            deco(a, b)
+    rs = enrich(w)
+    deco(m, rs)
+    m["env"] = {"E1": "ä", "E2": 2}
+    m["ver"] = 3
+    m["on"] = [{"id": o, "uses": "acts.event.manual"} for o in on]
+    ln["model"] = json.dumps(m, ensure_ascii=False)
+    return ln
+
+
+def treefam():
+    """shapes for C20: nested catches and timeouts, several rules, branches in catch steps, explicit next,
+    duplicate ids, and the hand family again with every optional field"""
+    out = []
+    out.append(rich_line("nested_catch", workflow("m", [
+        step("s1", acts=[act("a1", catches=[catch("e1", [step("c1", acts=[act("ca1", catches=[catch(NIL, [step("cc1")])])]),
+                                                         step("c2")]),
+                                            catch("e2", [step("c3")])],
+                             timeouts=[timeout(2, [step("t1"), step("t2")]), timeout(1, [step("t3")], unit="m")])],
+             catches=[catch(NIL, [step("sc1", branches=[branch("cb1", cond=A, steps=[step("cbs1")]),
+                                                       branch("cb2", els=True)])])],
+             timeouts=[timeout(5, [step("st1")])]),
+        step("s2", next="s1"),
+    ]), on=("ev1", "ev2")))
+    out.append(rich_line("three_levels", workflow("m", [
+        step("s1", branches=[branch("b1", cond=A, steps=[
+            step("s11", branches=[branch("b11", cond=B, steps=[step("s111", acts=[act("a1"), act("a2"), act("a3")])]),
+                                  branch("b12", needs=["b11"])]),
+            step("s12")]),
+            branch("b2", els=True, steps=[step("s21")])]),
+        step("s2"), step("s3"), step("s4", acts=[act("a4", uses="msg")]),
+    ])))
+    out.append(rich_line("dup_step_id", workflow("m", [step("s1"), step("s1")])))
+    out.append(rich_line("dup_act_id", workflow("m", [step("s1", acts=[act("a1"), act("a1")])])))
+    out.append(rich_line("dup_in_catch", workflow("m", [
+        step("s1", acts=[act("a1", catches=[catch("e1", [step("s1")])])])])))
+    out.append(rich_line("next_forward", workflow("m", [step("s1", next="s2"), step("s2")])))
+    for ln in hand() + timed():
+        out.append(rich_line("rich_" + ln["name"], ln["spec"], on=("go",)))
+    return out
+
+
 FAMILIES = {
+    "treefam": lambda a: treefam(),
     "hand": lambda a: hand(),
     "timed": lambda a: timed(),
     "loops": lambda a: loops(),
